@@ -614,6 +614,7 @@ type tamperCase struct {
 	Stream int    `json:"streams"`
 	Tail   uint32 `json:"tail"`
 	Lag    bool   `json:"data_streams_lag,omitempty"`
+	SlowHash bool `json:"receiver_hash_takes_longer_than_its_timeout,omitempty"` // the receiver's hash of the highest recorded chunk takes longer than the 2 s it allows itself (a slow disk): the report says "hash unknown"
 }
 
 func copyDir(src, dst string) error {
@@ -762,6 +763,11 @@ func ResumeTamper(args []string) {
 	cases = append(cases, tamperCase{Kind: "foreign-chunksize-samecount", Stream: 1, Tail: 1}, tamperCase{Kind: "foreign-chunksize-samecount", Stream: 2, Tail: 0})
 	// the same leftover in the second place the receiver looks (below the root directory, when it runs without one)
 	cases = append(cases, tamperCase{Kind: "foreign-chunksize-samecount-fallback", Stream: 1, Tail: 1}, tamperCase{Kind: "foreign-chunksize-samecount-fallback", Stream: 2, Tail: 0})
+	// the receiver cannot hash the highest recorded chunk in time and reports "unknown": a chunk that cannot be verified
+	// cannot be trusted either
+	for _, pos := range []int{0, chunk / 2} {
+		cases = append(cases, tamperCase{Kind: "torn-chunk", Arg: tbits[len(tbits)-1], Arg2: pos, Stream: 1, Tail: 0, SlowHash: true}, tamperCase{Kind: "torn-chunk", Arg: tbits[len(tbits)-1], Arg2: pos, Stream: 2, Tail: 0, SlowHash: true})
+	}
 	// only the first chunk is recorded, and it is torn: the chunk to verify is the very chunk the sender would hand out next
 	for _, pos := range []int{0, 5, chunk - 8} {
 		cases = append(cases, tamperCase{Kind: "torn-first-only", Arg2: pos, Stream: 1 + pos%2, Tail: 0}, tamperCase{Kind: "torn-first-only", Arg2: pos, Stream: 2, Tail: 0, Lag: true})
@@ -958,6 +964,14 @@ func ResumeTamper(args []string) {
 				hmu.Lock()
 				written[[2]uint64{a, b}]++
 				hmu.Unlock()
+			case "recv.resume.hash":
+				if c.SlowHash {
+					hmu.Lock()
+					framed[[2]uint64{^uint64(0), a}]++ // (remembered: the delay was applied)
+					written[[2]uint64{^uint64(0), a}]++
+					hmu.Unlock()
+					time.Sleep(2300 * time.Millisecond)
+				}
 			}
 		}
 		o, err := xfer.Run(cfg, src, out)
@@ -981,6 +995,17 @@ func ResumeTamper(args []string) {
 			res.Distinct++
 		}
 		replay := map[string]any{"case": c, "template_bits": tbits, "outcome": o}
+		if c.SlowHash {
+			hmu.Lock()
+			slowed := 0
+			for k := range framed {
+				if k[0] == ^uint64(0) {
+					slowed++
+				}
+			}
+			hmu.Unlock()
+			outcomes[fmt.Sprintf("slow hash applied to %d chunk(s)", slowed)]++
+		}
 		switch {
 		case err != nil:
 			res.AddDrift(map[string]any{"why": "harness: " + err.Error(), "case": c})
